@@ -117,9 +117,12 @@ class DecoratorManager(ABC):
     """Maintain and validate a set of decorators."""
 
     hass: ClassVar[HomeAssistant]
+    _seq: ClassVar[int] = 0
 
     def __init__(self, ast_ctx: AstEval, name: str) -> None:
         """Initialize the manager."""
+        DecoratorManager._seq += 1
+        self.seq = DecoratorManager._seq  # creation order (= definition order within a context)
         self.ast_ctx = ast_ctx
         self.name = name
         self.func_name = name.split(".")[-1]
